@@ -1218,29 +1218,56 @@ class MountPointStore(RoutingStore):
             return self.default_store
         raise KeyRouteNotFoundStoreException(key=key, store=self)
 
+    def _leads_to_mount(self, key):
+        "True for a mount point and for every directory above a mount point"
+        for route, _ in self.routing_table:
+            if route == key or route.startswith(key + "/"):
+                return True
+        return False
+
     def get_metadata(self, key):
         try:
             metadata = self.route_to(key).get_metadata(key)
             metadata["key"] = key
 
             return metadata
-        except KeyRouteNotFoundStoreException:
+        except (KeyRouteNotFoundStoreException, KeyNotFoundStoreException):
             if self.is_dir(key):
                 return self.finalize_metadata({}, key, is_dir=True)
         raise KeyNotFoundStoreException(key=key, store=self)
 
+    def contains(self, key):
+        if key == "" or self._leads_to_mount(key):
+            return True
+        try:
+            return self.route_to(key).contains(key)
+        except KeyRouteNotFoundStoreException:
+            return False
+
     def is_dir(self, key):
-        if key == "":
+        if key == "" or self._leads_to_mount(key):
             return True
         try:
             return self.route_to(key).is_dir(key)
         except KeyRouteNotFoundStoreException:
-            for route, _ in reversed(self.routing_table):
-                if route == key or route.startswith(key + "/"):
-                    return self.finalize_metadata({}, key, is_dir=True)
-        return False
+            return False
 
     def keys(self):
+        seen = set()
+        for prefix, _ in self.routing_table:
+            # directories above the mount points are part of the tree
+            key = parent_key(prefix)
+            while key not in (None, ""):
+                if key not in seen:
+                    seen.add(key)
+                    yield key
+                key = parent_key(key)
+        for key in self._routed_keys():
+            if key not in seen:
+                seen.add(key)
+                yield key
+
+    def _routed_keys(self):
         prefixes = []
         for prefix, store in reversed(self.routing_table):
             yield prefix
